@@ -272,7 +272,10 @@ def run_pbt(prop, unit, tier, seed, known_ids, only=None):
     shutil.rmtree(tmp, ignore_errors=True)
     os.makedirs(tmp)
     env = dict(os.environ)
-    env["ASAN_OPTIONS"] = "detect_leaks=0:abort_on_error=1:allocator_may_return_null=1"
+    # malloc_context_size=0: ASan's stack depot keeps every distinct allocation stack for ever; rapidcheck's nested
+    # generators produce millions of them (a thorough C10 shard reached 9 GB and was OOM-killed).  Errors are still
+    # detected; the replay of a failing case (replay_pbt) runs with full allocation stacks for the report.
+    env["ASAN_OPTIONS"] = "detect_leaks=0:abort_on_error=1:allocator_may_return_null=1:malloc_context_size=0:quarantine_size_mb=64"
     env["UBSAN_OPTIONS"] = "print_stacktrace=1:halt_on_error=1"
     env["VF_TMP"] = tmp
     procs = []
